@@ -36,6 +36,7 @@ type c01cfg struct {
 	pDelay   int
 	pDrop    int
 	pTC, pTCPFail int
+	pClose   int
 	wrap     bool
 	surplus  bool
 	maxCQ    int
@@ -67,6 +68,11 @@ func c01Setup(rc *RunCtx) simrt.Config {
 	if !c.kind.stream() {
 		c.pDrop = []int{0, 0, 20}[r.Choose(3)]
 	}
+	if c.kind.stream() && !c.surplus {
+		// the peer closes or resets right after a reply: the reply and the close
+		// notification reach the waiting caller together
+		c.pClose = []int{0, 0, 15, 40}[r.Choose(4)]
+	}
 	if c.kind == TkUDP {
 		c.pTC = []int{0, 30, 60}[r.Choose(3)]
 		c.pTCPFail = []int{0, 50}[r.Choose(2)]
@@ -79,7 +85,7 @@ func c01Setup(rc *RunCtx) simrt.Config {
 			// 65536 queries, so this mode generates no reply that could outlive
 			// its query (no duplicates, cancellations, loss or resend-inducing delays).
 			c.pDelay = 90
-			c.pDrop, c.pDup, c.pCancel, c.pStray = 0, 0, 0, 0
+			c.pDrop, c.pDup, c.pCancel, c.pStray, c.pClose = 0, 0, 0, 0, 0
 		}
 	}
 	rc.Net.ChunkMode = r.Choose(3)
@@ -94,6 +100,7 @@ func c01Setup(rc *RunCtx) simrt.Config {
 	rc.Cfg["p_delay"] = c.pDelay
 	rc.Cfg["p_drop"] = c.pDrop
 	rc.Cfg["p_tc"] = c.pTC
+	rc.Cfg["p_close"] = c.pClose
 	rc.Cfg["wrap"] = c.wrap
 	rc.Cfg["surplus"] = c.surplus
 	rc.Cfg["max_cq"] = c.maxCQ
@@ -123,6 +130,13 @@ func c01Main(rc *RunCtx) {
 		}
 		if simrt.Choose(100) < c.pDrop {
 			a.NoReply = true
+		}
+		if sc.Stream && simrt.Choose(100) < c.pClose {
+			if simrt.Choose(2) == 0 {
+				a.CloseAfter = true
+			} else {
+				a.ResetAfter = true
+			}
 		}
 		if c.kind == TkUDP && !sc.Stream && simrt.Choose(100) < c.pTC {
 			a.TC = true // udp:// falls back to TCP, whose server answers or dies (below)
